@@ -4,6 +4,7 @@ package main
 // padding non-interference rule (C04-R5, shared with C05) and the drivers.
 
 import (
+	"os"
 	"fmt"
 	"go/constant"
 	"go/token"
@@ -293,7 +294,7 @@ func checkC04(c *Ctx) {
 	// ---- R5
 	rulePaddingNonInterference(c, "C04-R5", decoderFuncs(P, "msm"))
 	// ---- R6
-	checkMSMRejections(c, "C04-R6", A, hl)
+	checkMSMRejections(c, "C04-R6", A, hl, or)
 	// ---- R7
 	if cor, err := loadClassOracle(c.Verifdir); err == nil {
 		T := NewTables(P)
@@ -738,7 +739,7 @@ func checkSectionStarts(c *Ctx, rule, fam string, A *Aff, msg, getHdr, sat, sig 
 }
 
 // checkMSMRejections (C04-R6): every error exit of the MSM decode path is one of the allowed reasons.
-func checkMSMRejections(c *Ctx, rule string, A *Aff, hl *headerLemma) {
+func checkMSMRejections(c *Ctx, rule string, A *Aff, hl *headerLemma, lay *layoutOracle) {
 	P := c.P
 	fns := decoderFuncs(P, "msm")
 	seen := map[string]bool{}
@@ -779,6 +780,30 @@ func checkMSMRejections(c *Ctx, rule string, A *Aff, hl *headerLemma) {
 			}
 			seen[kind] = true
 			c.OK(rule, label+":"+kind, r.Pos(), "allowed rejection reason")
+			// a shortage rejection must be a genuine shortage: in the satellite reader the message is
+			// rejected only if the bits after the start position, less the CRC, cannot hold Nsat cells
+			if kind == "too-short" && fn.Name() == "GetSatelliteCells" && buf != nil && len(fn.Params) >= 3 {
+				fam := ""
+				for _, f := range []string{"msm4", "msm7"} {
+					if strings.Contains(fn.Pkg.Pkg.Path(), "type_"+f) {
+						fam = f
+					}
+				}
+				var sats *ssa.Parameter
+				for _, p := range fn.Params {
+					if _, isSl := p.Type().Underlying().(*types.Slice); isSl && p != buf {
+						sats = p
+					}
+				}
+				if fam != "" && sats != nil && isInteger(fn.Params[1].Type()) {
+					bits := lay.sum(fam + "_sat")
+					left := A.LenOf(buf).Scale(8).Sub(A.Lin(fn.Params[1])).AddConst(-24)
+					shortage := GT(A.LenOf(sats).Scale(bits), left)
+					c.Check(A.Prove(r.Block(), shortage), rule, label+":genuine-shortage", r.Pos(),
+						fmt.Sprintf("rejected only when 8*len(frame) - start - 24 < %d * Nsat", bits),
+						"the satellite reader rejects a message whose remaining bits (less the CRC) hold all its satellite cells exactly: a well-formed message without padding is refused")
+				}
+			}
 		}
 	}
 	for _, k := range []string{"too-short", "not-msm-type", "cell-mask>64", "wrong-family", "signal-overrun", "continued-without-cell"} {
@@ -828,6 +853,9 @@ func classifyMSMGuard(A *Aff, hl *headerLemma, fn *ssa.Function, buf *ssa.Parame
 	lenSym := A.lenSym(buf)
 	coef, has := l.T[lenSym]
 	if has && coef.Sign() < 0 {
+		if os.Getenv("VERIF_DEBUG_C04") != "" {
+			fmt.Println("too-short guard in", fn.Name(), ":", cons[0].String())
+		}
 		// "-k*len(buf) + ... >= 0": rejects short buffers
 		if strings.Contains(fn.Name(), "Signal") {
 			// distinguishes continued-without-cell (under MultipleMessage) from a generic shortage
